@@ -121,13 +121,153 @@ UNITS.append(U("C05.sc_mul_512.W64", ["C05"], SM, "h_sc_mul_512", cfg="W64", ver
 UNITS.append(U("C05.sc_reduce_512.W64", ["C05"], SM, "h_sc_reduce_512", cfg="W64", verify=True, functions=["secp256k1_scalar_reduce_512"],
                tier="thorough", timeout=1500, replay=False))
 fam("fe_signed", FE, "h_fe_signed", ["secp256k1_fe_to_signed62", "secp256k1_fe_from_signed62", "secp256k1_scalar_to_signed62", "secp256k1_scalar_from_signed62", "secp256k1_fe_impl_get_bounds"], quick=False)
-UNITS.append(U("C05.sc_reduce_512_value", ["C05"], SM, "h_sc_reduce_512_value", functions=["secp256k1_scalar_reduce_512"],
-               tier="thorough", timeout=3600, replay=False, solver="cadical", note="r == l mod n via three limb-wise folds; multiplications by the constant limbs of 2^256-n are real"))
-UNITS.append(U("C05.sc_mul_512_value", ["C05"], SM, "h_sc_mul_512_value", verify=True, replace=UF, functions=["secp256k1_scalar_mul_512", "secp256k1_scalar_sqr_512"],
-               tier="thorough", timeout=3600, replay=False, solver="cadical", note="schoolbook sum over the uninterpreted 64x64 multiplier"))
+# VALUE of scalar_reduce_512 (h_sc_reduce_512_value: r == l mod n via three limb-wise folds): tried on the full 512-bit input with MiniSat
+# (1670 s) and CaDiCaL (3600 s) and with only one non-zero high limb (-DRV_HI_LIMBS=1, CaDiCaL 1200 s): undecided every time -> not listed,
+# the value stays assumed residue.
+# VALUE of scalar_mul_512 relative to the uninterpreted multiplier (h_sc_mul_512_value: l == sum umul(a_i,b_j) 2^(64(i+j))): tried, MiniSat 1660 s and
+# CaDiCaL 3600 s, undecided -> not listed; the value of the 512-bit product stays assumed residue.
 UNITS.append(U("C05.fe_mul_contract", ["C05"], FM, "h_fe_mul_contract", verify=True, enforce=["secp256k1_fe_mul"], replace=UF, functions=["secp256k1_fe_mul", "secp256k1_fe_impl_mul", "secp256k1_fe_mul_inner"],
                timeout=900, tier="quick", replay=False, note="magnitude contract used by the group units, enforced on the real wrapper"))
 UNITS.append(U("C05.fe_sqr_contract", ["C05"], FM, "h_fe_sqr_contract", verify=True, enforce=["secp256k1_fe_sqr"], replace=UF, functions=["secp256k1_fe_sqr", "secp256k1_fe_impl_sqr", "secp256k1_fe_sqr_inner"],
                timeout=900, tier="quick", replay=False))
 UNITS.append(U("C05.sc_mul_shift", ["C05"], SM, "h_sc_mul_shift", verify=True, replace=UF, functions=["secp256k1_scalar_mul_shift_var"],
-               tier="thorough", timeout=1800, replay=False, note="index/shift safety and VERIFY_CHECKs for every shift in [256,512]; rounding value assumed"))
+               tier="thorough", timeout=1800, replay=False, note="index/shift safety and VERIFY_CHECKs for every shift in [257,512] (the library uses 384); shift = 256 and the rounded value are residue"))
+UNITS.append(U("C05.fe_mul_contract.W64", ["C05"], FM, "h_fe_mul_contract", cfg="W64", verify=True, enforce=["secp256k1_fe_mul"], functions=["secp256k1_fe_mul", "secp256k1_fe_impl_mul", "secp256k1_fe_mul_inner"],
+               timeout=1500, tier="thorough", replay=False, note="10x26: native products, nothing replaced"))
+UNITS.append(U("C05.fe_sqr_contract.W64", ["C05"], FM, "h_fe_sqr_contract", cfg="W64", verify=True, enforce=["secp256k1_fe_sqr"], functions=["secp256k1_fe_sqr", "secp256k1_fe_impl_sqr", "secp256k1_fe_sqr_inner"],
+               timeout=1500, tier="thorough", replay=False))
+
+# obligation counts observed at authoring time (vacuity guard: a run must produce at least 70% of them)
+OBSERVED = {
+    "C05.fe_add": 115,
+    "C05.fe_add.W128V": 325,
+    "C05.fe_add.W64": 192,
+    "C05.fe_add.W64V": 522,
+    "C05.fe_b32": 1381,
+    "C05.fe_b32.W128V": 1598,
+    "C05.fe_b32.W64": 1488,
+    "C05.fe_b32.W64V": 1825,
+    "C05.fe_cmp": 62,
+    "C05.fe_cmp.W128V": 250,
+    "C05.fe_cmp.W64": 59,
+    "C05.fe_cmp.W64V": 367,
+    "C05.fe_half": 90,
+    "C05.fe_half.W128V": 281,
+    "C05.fe_half.W64": 132,
+    "C05.fe_half.W64V": 443,
+    "C05.fe_mul_contract": 1032,
+    "C05.fe_mul_contract.W64": 3402,
+    "C05.fe_mul_inner": 875,
+    "C05.fe_mul_inner.W128S": 955,
+    "C05.fe_mul_inner.W64": 3054,
+    "C05.fe_mul_int": 90,
+    "C05.fe_mul_int.W128V": 288,
+    "C05.fe_mul_int.W64": 130,
+    "C05.fe_mul_int.W64V": 448,
+    "C05.fe_negate": 119,
+    "C05.fe_negate.W128V": 313,
+    "C05.fe_negate.W64": 196,
+    "C05.fe_negate.W64V": 511,
+    "C05.fe_normalize": 106,
+    "C05.fe_normalize.W128V": 296,
+    "C05.fe_normalize.W64": 148,
+    "C05.fe_normalize.W64V": 458,
+    "C05.fe_normalize_m32.W64": 148,
+    "C05.fe_normalize_var": 105,
+    "C05.fe_normalize_var.W128V": 295,
+    "C05.fe_normalize_var.W64": 147,
+    "C05.fe_normalize_var.W64V": 457,
+    "C05.fe_normalize_var_m32.W64": 147,
+    "C05.fe_normalize_weak": 89,
+    "C05.fe_normalize_weak.W128V": 272,
+    "C05.fe_normalize_weak.W64": 131,
+    "C05.fe_normalize_weak.W64V": 434,
+    "C05.fe_normalize_weak_m32.W64": 131,
+    "C05.fe_ntz": 62,
+    "C05.fe_ntz.W128V": 238,
+    "C05.fe_ntz.W64": 69,
+    "C05.fe_ntz.W64V": 365,
+    "C05.fe_ntz_m32.W64": 69,
+    "C05.fe_signed": 339,
+    "C05.fe_signed.W128V": 539,
+    "C05.fe_signed.W64": 527,
+    "C05.fe_signed.W64V": 851,
+    "C05.fe_small": 269,
+    "C05.fe_small.W128V": 524,
+    "C05.fe_small.W64": 441,
+    "C05.fe_small.W64V": 816,
+    "C05.fe_sqr_contract": 666,
+    "C05.fe_sqr_contract.W64": 2076,
+    "C05.fe_sqr_inner": 506,
+    "C05.fe_sqr_inner.W128S": 586,
+    "C05.fe_sqr_inner.W64": 1725,
+    "C05.fe_storage": 279,
+    "C05.fe_storage.W128V": 475,
+    "C05.fe_storage.W64": 480,
+    "C05.fe_storage.W64V": 796,
+    "C05.ge_predicates": 1347,
+    "C05.ge_predicates.W64": 1845,
+    "C05.ge_set_gej": 697,
+    "C05.ge_set_gej.W64": 859,
+    "C05.ge_storage": 641,
+    "C05.ge_storage.W64": 1007,
+    "C05.gej_add_ge": 960,
+    "C05.gej_add_ge.W64": 1398,
+    "C05.gej_add_ge_var": 1039,
+    "C05.gej_add_ge_var.W64": 1487,
+    "C05.gej_add_var": 965,
+    "C05.gej_add_var.W64": 1413,
+    "C05.gej_add_zinv_var": 993,
+    "C05.gej_add_zinv_var.W64": 1441,
+    "C05.gej_double": 884,
+    "C05.gej_double.W64": 1327,
+    "C05.group_small": 916,
+    "C05.group_small.W64": 1274,
+    "C05.i128": 88,
+    "C05.i128.W128S": 176,
+    "C05.i128.W128SV": 201,
+    "C05.sc_add": 210,
+    "C05.sc_add.W128S": 266,
+    "C05.sc_add.W128V": 223,
+    "C05.sc_add.W64": 332,
+    "C05.sc_add.W64V": 345,
+    "C05.sc_b32": 528,
+    "C05.sc_b32.W128S": 584,
+    "C05.sc_b32.W128V": 541,
+    "C05.sc_b32.W64": 550,
+    "C05.sc_b32.W64V": 563,
+    "C05.sc_bits": 140,
+    "C05.sc_bits.W128S": 196,
+    "C05.sc_bits.W128V": 169,
+    "C05.sc_bits.W64": 174,
+    "C05.sc_bits.W64V": 201,
+    "C05.sc_mul_512": 668,
+    "C05.sc_mul_512.W64": 1807,
+    "C05.sc_mul_shift": 595,
+    "C05.sc_neg": 267,
+    "C05.sc_neg.W128S": 323,
+    "C05.sc_neg.W128V": 297,
+    "C05.sc_neg.W64": 421,
+    "C05.sc_neg.W64V": 455,
+    "C05.sc_reduce_512": 299,
+    "C05.sc_reduce_512.W64": 441,
+    "C05.sc_small": 313,
+    "C05.sc_small.W128S": 313,
+    "C05.sc_small.W128V": 336,
+    "C05.sc_small.W64": 543,
+    "C05.sc_small.W64V": 570,
+    "C05.u128": 80,
+    "C05.u128.W128S": 169,
+    "C05.u128.W128SV": 182,
+    "C05.umul_axioms": 36,
+    "C05.util_bits": 80,
+    "C05.util_bits.W128V": 105,
+    "C05.util_bits.builtin_clz": 79,
+    "C05.util_endian": 417,
+    "C05.util_loops": 339,
+    "C05.util_loops_b24": 239,
+    "C05.util_memczero_b192": 37,
+}
+for _u in UNITS:
+    if _u.name in OBSERVED:
+        _u.min_obl = max(_u.min_obl, int(0.7 * OBSERVED[_u.name]))
